@@ -81,7 +81,7 @@ const (
 	cJSONBigInt = "json-big-int"
 	cTypedAny   = "json-typed-anyobj"
 	cTreeLetAny = "json-anyobj"
-	cOptAnyObj  = "json-opt-anyobj"        // Some(any-object) under ?{?}: needs the wrap rule to convert (C12)
+	cOptAnyObj  = "json-opt-anyobj"        // Some(x) with an any-object inside x: needs the wrap rule to convert (C12)
 	cTreeAnyVal = "prog-tree-anyobj-check" // interpreter re-validates an any-object against {?} (C12)
 )
 
@@ -260,7 +260,9 @@ func jsonConstructs(v vu.Val, t vu.Type, lib, mode string) []string {
 		out = append(out, cJSONBigInt)
 	}
 	for _, tp := range vu.TypedPositions(v, t) {
-		if tp.T.K == vu.TOpt && tp.T.Elem.K == vu.TAnyObj && tp.V.K == vu.VSome {
+		// Some(x) is written as x; read back, x meets ?U as a non-option and must be converted
+		// (objects into any-objects) by the wrap rule
+		if tp.T.K == vu.TOpt && tp.V.K == vu.VSome && tp.V.Inner.HasVKind(vu.VAnyObj) {
 			out = append(out, cOptAnyObj)
 			break
 		}
